@@ -53,7 +53,10 @@ def scriptpubkey(data: bytes) -> bytes:
         elif len(witness_program) == 32:
             return p2wsh_script_pubkey(witness_program, witness_version=witness_version)
         else:
-            raise ValueError("bad witness program length")
+            # any other valid witness program (2..40 bytes, v1..v16): OP_n <program>
+            return p2wpkh_script_pubkey(
+                witness_program, witness_version=witness_version
+            )
     else:
         raise ValueError("data not identified as pubkey, base58check, nor segwit")
 
